@@ -17,7 +17,7 @@
 #include "core/Memory.h"
 #include "fileio/FileIo.h"
 
-extern "C" { int g_nchars, g_eof; unsigned g_nwrites; int g_errors; uint32_t *g_p_low, *g_p_high; }
+extern "C" { int g_nchars, g_eof; unsigned g_nwrites; int g_errors; uint32_t *g_p_low, *g_p_high; int g_open; }
 #if READER == 8
 /* position-aware file contract (the Amiga hunk reader seeks backwards and forwards): a file of g_len arbitrary bytes,
    g_pos the read position; a read at or beyond the end returns EOF and raises the end-of-file indicator, a seek clears it */
@@ -29,8 +29,8 @@ extern "C" int getc(FILE *f)
   return (nondet_uchar)();
 }
 static long g_file_obj[64];
-extern "C" FILE *fopen(const char *n, const char *m) { return (nondet_int() & 1) ? (FILE *)(void *)&g_file_obj[0] : (FILE *)0; }
-extern "C" int fclose(FILE *f) { return 0; }
+extern "C" FILE *fopen(const char *n, const char *m) { if (nondet_int() & 1) { g_open = 1; return (FILE *)(void *)&g_file_obj[0]; } return (FILE *)0; }
+extern "C" int fclose(FILE *f) { OBL(f != 0 && g_open == 1, "C17.readers: a stream is closed at most once, and only if it was opened (no double fclose)"); g_open = 0; return 0; }
 extern "C" long ftell(FILE *f) { return g_pos; }
 extern "C" int feof(FILE *f) { return g_eof; }
 extern "C" int fseek(FILE *__stream, long __off, int __whence)
@@ -52,8 +52,8 @@ extern "C" int getc(FILE *f)
   return c;
 }
 static long g_file_obj[64];
-extern "C" FILE *fopen(const char *n, const char *m) { return (nondet_int() & 1) ? (FILE *)(void *)&g_file_obj[0] : (FILE *)0; }
-extern "C" int fclose(FILE *f) { return 0; }
+extern "C" FILE *fopen(const char *n, const char *m) { if (nondet_int() & 1) { g_open = 1; return (FILE *)(void *)&g_file_obj[0]; } return (FILE *)0; }
+extern "C" int fclose(FILE *f) { OBL(f != 0 && g_open == 1, "C17.readers: a stream is closed at most once, and only if it was opened (no double fclose)"); g_open = 0; return 0; }
 /* files shorter than 2 GiB - 512 (the readers keep file offsets in int) */
 extern "C" long ftell(FILE *f) { int v = nondet_int(); ASSUME(v >= -1 && v < 0x7fffffff - 512); return v; }
 extern "C" int fseek(FILE *f, long o, int w) { return 0; }
@@ -163,7 +163,7 @@ extern "C" void h_reader()
 #if READER == 8
   g_len = nondet_int(); ASSUME(g_len >= 0 && g_len < (1 << 28)); g_pos = 0;
 #endif
-  g_nchars = 0; g_eof = 0; g_nwrites = 0; g_errors = 0; g_p_low = &m.low_address; g_p_high = &m.high_address;
+  g_nchars = 0; g_eof = 0; g_nwrites = 0; g_errors = 0; g_open = 0; g_p_low = &m.low_address; g_p_high = &m.high_address;
   int r = CALL(m);
   OBL(g_nchars >= 0 && g_nchars < (1 << 28), "C17.readers: the reader returns after consuming the file");
   (void)r;
